@@ -10,6 +10,14 @@ const (
 )
 
 var registry = []*HarnessSpec{
+	{Prop: "C18", Name: "zzH18", Pkg: pkgCorerad, Tier: "quick", Bounds: "one message: RS/NS/NA or an RA with symbolic header, 0..2 prefix options (all fields symbolic, whole-second lifetimes incl. 0 and 2^32-1 s) and an unknown option; receipt instant any wall-clock ns value; sender an opaque string"},
+	{Prop: "C12", Name: "zzH12ra", Pkg: pkgCorerad, Tier: "quick", Bounds: "all header fields of both RAs symbolic"},
+	{Prop: "C12", Name: "zzH12mtu", Pkg: pkgCorerad, Tier: "quick", Bounds: "MTU option present/absent per side, values symbolic, distinct objects"},
+	{Prop: "C12", Name: "zzH12captive", Pkg: pkgCorerad, Tier: "quick", Bounds: "captive-portal option present/absent per side, equal or different URI, distinct objects"},
+	{Prop: "C12", Name: "zzH12prefix", Pkg: pkgCorerad, Tier: "quick", Params: map[string]int{"n": 2, "n@thorough": 3}, Bounds: "0..n prefix options per side (n=2, thorough 3), all fields symbolic"},
+	{Prop: "C12", Name: "zzH12route", Pkg: pkgCorerad, Tier: "quick", Params: map[string]int{"n": 2, "n@thorough": 3}, Bounds: "0..n route options per side, all fields symbolic"},
+	{Prop: "C12", Name: "zzH12rdnss", Pkg: pkgCorerad, Tier: "quick", Params: map[string]int{"n": 2, "n@thorough": 2}, Bounds: "0..2 RDNSS options per side with 1..2 symbolic servers"},
+	{Prop: "C12", Name: "zzH12dnssl", Pkg: pkgCorerad, Tier: "quick", Params: map[string]int{"n": 2, "n@thorough": 2}, Bounds: "0..2 DNSSL options per side with 1..2 names from three tokens"},
 	{Prop: "C14", Name: "zzH14a", Pkg: pkgPlugin, Tier: "quick", Params: map[string]int{"n": 3, "n@thorough": 4}, Bounds: "address list of n=3 (thorough 4) fully symbolic entries (either family, any length, six flags)"},
 	{Prop: "C15", Name: "zzH15", Pkg: pkgPlugin, Tier: "quick", Params: map[string]int{"n": 2, "n@thorough": 3}, Bounds: "route list of n=2 (thorough 3) symbolic masked prefixes of either family, any length"},
 	{Prop: "C16", Name: "zzH16", Pkg: pkgPlugin, Tier: "quick", MonoTime: true, Params: map[string]int{"mono": 1}, Bounds: "epoch and three non-decreasing monotonic clock readings (what time.Now returns; possibly before the epoch), lifetimes any ns value the parser accepts below 2^32 s"},
@@ -17,4 +25,27 @@ var registry = []*HarnessSpec{
 	{Prop: "C01", Name: "zzH01b", Pkg: pkgPlugin, Tier: "quick", Bounds: "max_interval any ns value in [4s,1800s]"},
 	{Prop: "C13", Name: "zzH13", Pkg: pkgPlugin, Tier: "quick", Params: map[string]int{"n": 3, "n@thorough": 4}, Bounds: "address list of n=2 (thorough 3) fully symbolic entries: either family, any length, all six flags; stanza flags/lifetimes symbolic; listing failure"},
 	{Prop: "C05", Name: "zzH05a", Pkg: pkgCorerad, Extra: []string{pkgConfig}, Tier: "quick", Bounds: "i any int>=0; (min,max) any ns-granular pair with 4s<=max<=1800s, 3s<=min<=max; Int63n any value in [0,n)"},
+}
+
+// harness overlays of imported packages must be present whenever a package is
+// loaded (their files reference each other's exported shims)
+var overlayDeps = map[string][]string{
+	pkgCorerad: {pkgConfig, pkgPlugin, pkgSystem, pkgNetstate},
+	pkgConfig:  {pkgPlugin, pkgSystem},
+	pkgPlugin:  {pkgSystem},
+	pkgCrhttp:  {pkgConfig, pkgPlugin, pkgSystem},
+}
+
+func init() {
+	for _, h := range registry {
+		have := map[string]bool{}
+		for _, x := range h.Extra {
+			have[x] = true
+		}
+		for _, d := range overlayDeps[h.Pkg] {
+			if !have[d] && harnessDirHasFiles(d) {
+				h.Extra = append(h.Extra, d)
+			}
+		}
+	}
 }
